@@ -95,7 +95,8 @@ func runC19(c *Ctx) {
 	if tag != nil {
 		tags = append(tags, tag)
 	}
-	wrapsPkg := func(fn *ssa.Function, entry *ssa.BasicBlock, tparam ssa.Value) (string, bool, string) {
+	var wrapsPkg func(fn *ssa.Function, entry *ssa.BasicBlock, tparam ssa.Value) (string, bool, string)
+	wrapsPkg = func(fn *ssa.Function, entry *ssa.BasicBlock, tparam ssa.Value) (string, bool, string) {
 		var wcall *ssa.Call
 		for _, b := range fn.Blocks {
 			if entry != nil && !entry.Dominates(b) {
@@ -110,7 +111,43 @@ func runC19(c *Ctx) {
 			}
 		}
 		if wcall == nil {
-			return "", false, "does not return <package>.Wrap(t)"
+			// every return may delegate to a helper of this package that does the wrapping
+			pkH, n := "", 0
+			for _, b := range fn.Blocks {
+				if entry != nil && !entry.Dominates(b) {
+					continue
+				}
+				for _, in := range b.Instrs {
+					ret, isRet := in.(*ssa.Return)
+					if !isRet {
+						continue
+					}
+					hc, isCall := unwrap(results(ret)[0], true).(*ssa.Call)
+					if !isCall {
+						return "", false, "does not return <package>.Wrap(t)"
+					}
+					h := hc.Call.StaticCallee()
+					if h == nil || h.Blocks == nil || funcPkgPath(h) != pkgPath("auto") || h == fn || len(hc.Call.Args) != len(h.Params) {
+						return "", false, "does not return <package>.Wrap(t)"
+					}
+					okH := false
+					for k, a := range hc.Call.Args {
+						if a == tparam {
+							if hp, hok, _ := wrapsPkg(h, nil, h.Params[k]); hok && (pkH == "" || pkH == hp) {
+								pkH, okH = hp, true
+							}
+						}
+					}
+					if !okH {
+						return "", false, "does not return <package>.Wrap(t)"
+					}
+					n++
+				}
+			}
+			if n == 0 {
+				return "", false, "does not return <package>.Wrap(t)"
+			}
+			return pkH, true, ""
 		}
 		pk := wcall.Call.StaticCallee().Pkg.Pkg.Name()
 		if wcall.Call.Args[0] != tparam {
@@ -122,9 +159,27 @@ func runC19(c *Ctx) {
 			}
 			for _, in := range b.Instrs {
 				if ret, isRet := in.(*ssa.Return); isRet {
-					if unwrap(results(ret)[0], true) != ssa.Value(wcall) {
-						return pk, false, "returns something other than the wrapper it built"
+					rv := unwrap(results(ret)[0], true)
+					if rv == ssa.Value(wcall) {
+						continue
 					}
+					// a helper of this package that builds the same kind of wrapper around the same table
+					if hc, isCall := rv.(*ssa.Call); isCall {
+						if h := hc.Call.StaticCallee(); h != nil && h.Blocks != nil && funcPkgPath(h) == pkgPath("auto") && h != fn && len(hc.Call.Args) == len(h.Params) {
+							okH := false
+							for k, a := range hc.Call.Args {
+								if a == tparam {
+									if hp, hok, _ := wrapsPkg(h, nil, h.Params[k]); hok && hp == pk {
+										okH = true
+									}
+								}
+							}
+							if okH {
+								continue
+							}
+						}
+					}
+					return pk, false, "returns something other than the wrapper it built"
 				}
 			}
 		}
